@@ -83,7 +83,7 @@ def addedMatches (h : Heap) (g : Graph) (o : Id) (new : Val) : Bool :=
     (match g.ob with
      | .named n' _ _ => n == n'
      | .filtered f _ =>
-       (match h o with
+       (match h.get o with
         | .inst fs => (match findField fs n with
           | some fl => f.matches fl
           | none => false)
@@ -164,7 +164,7 @@ def notifyCont (E : Env) (h : Heap) (c : Id) (ev : CEvent) :
     Nat → Nat → Hooks → List Delivered → Hooks × List Delivered × Option Exc
   | 0, _, H, ds => (H, ds, some .other)
   | fuel + 1, i, H, ds =>
-    match (H (.cont c))[i]? with
+    match (H.get (.cont c))[i]? with
     | none => (H, ds, none)
     | some (.user k _) =>
       if E.dead k then notifyCont E h c ev fuel (i + 1) H ds
@@ -207,7 +207,7 @@ def materialise (h : Heap) (d : Dflt) (fresh : Id) : Heap × Val :=
   | .newSet => (h.upd fresh (.set []), .ref fresh)
 
 def storeField (h : Heap) (o : Id) (n : Name) (v : Val) : Heap :=
-  match h o with
+  match h.get o with
   | .inst fs => h.upd o (.inst (setFieldVal fs n v))
   | _ => h
 
@@ -220,7 +220,7 @@ def runCont (E : Env) (st : St) (h' : Heap) (c : Id) (ev : Option CEvent) : Out 
   match ev with
   | none => ⟨⟨h', st.H⟩, [], none⟩
   | some ev =>
-    let r := notifyCont E h' c ev ((st.H (.cont c)).length + 64) 0 st.H []
+    let r := notifyCont E h' c ev ((st.H.get (.cont c)).length + 64) 0 st.H []
     ⟨⟨h', r.1⟩, r.2.1, r.2.2⟩
 
 def skip (st : St) : Out := ⟨st, [], some .other⟩
@@ -231,12 +231,12 @@ range for the simplified list operations, …) that the harness never generates.
 def mutate (E : Env) (st : St) : Mutation → Out
   | .alloc i o => ⟨⟨st.h.upd i o, st.H⟩, [], none⟩
   | .setField o n v fresh =>
-    match st.h o with
+    match st.h.get o with
     | .inst fs =>
       (match findField fs n with
        | none => skip st
        | some f =>
-         let ns := st.H (.trait o n)
+         let ns := st.H.get (.trait o n)
          if ns.isEmpty then
            -- no notifiers: plain store, the default is not evaluated
            ⟨⟨storeField st.h o n v, st.H⟩, [], none⟩
@@ -250,7 +250,7 @@ def mutate (E : Env) (st : St) : Mutation → Out
              ⟨⟨h', r.1⟩, r.2.1, r.2.2⟩)
     | _ => skip st
   | .read o n fresh =>
-    match st.h o with
+    match st.h.get o with
     | .inst fs =>
       (match findField fs n with
        | none => skip st
@@ -258,7 +258,7 @@ def mutate (E : Env) (st : St) : Mutation → Out
          if f.val == .unset then
            let (h1, v) := materialise st.h f.dflt fresh
            let h' := storeField h1 o n v
-           let ns := st.H (.trait o n)
+           let ns := st.H.get (.trait o n)
            if ns.isEmpty then ⟨⟨h', st.H⟩, [], none⟩
            else
              let r := callTrait E h' o n .unset v ns st.H []
@@ -267,7 +267,7 @@ def mutate (E : Env) (st : St) : Mutation → Out
     | _ => skip st
   | .addTrait o n tagged d =>
     -- has_traits.py:2801-2872
-    match st.h o with
+    match st.h.get o with
     | .inst fs =>
       (match findField fs n with
        | some _ =>
@@ -275,48 +275,48 @@ def mutate (E : Env) (st : St) : Mutation → Out
          ⟨⟨st.h.upd o (.inst (fs.map (fun f => if f.name == n then { f with tagged := tagged, dflt := d } else f))), st.H⟩, [], none⟩
        | none =>
          let h' := st.h.upd o (.inst (fs ++ [⟨n, tagged, d, .unset⟩]))
-         let ns := st.H (.trait o nTraitAdded)
+         let ns := st.H.get (.trait o nTraitAdded)
          if ns.isEmpty then ⟨⟨h', st.H⟩, [], none⟩
          else
            let r := callTrait E h' o nTraitAdded .undef (.name n) ns st.H []
            ⟨⟨h', r.1⟩, r.2.1, r.2.2⟩)
     | _ => skip st
   | .listAppend c x =>
-    match st.h c with
+    match st.h.get c with
     | .list l => runCont E st (st.h.upd c (.list (l ++ [x]))) c (some (.list l.length [] [x]))
     | _ => skip st
   | .listInsert c i x =>
-    match st.h c with
+    match st.h.get c with
     | .list l =>
       if i ≤ l.length then runCont E st (st.h.upd c (.list (l.take i ++ x :: l.drop i))) c (some (.list i [] [x]))
       else skip st
     | _ => skip st
   | .listDel c i =>
-    match st.h c with
+    match st.h.get c with
     | .list l =>
       (match l[i]? with
        | some y => runCont E st (st.h.upd c (.list (l.eraseIdx i))) c (some (.list i [y] []))
        | none => skip st)
     | _ => skip st
   | .listSet c i x =>
-    match st.h c with
+    match st.h.get c with
     | .list l =>
       (match l[i]? with
        | some y => runCont E st (st.h.upd c (.list (l.set i x))) c (some (.list i [y] [x]))
        | none => skip st)
     | _ => skip st
   | .listClear c =>
-    match st.h c with
+    match st.h.get c with
     | .list l => runCont E st (st.h.upd c (.list [])) c (if l.isEmpty then none else some (.list 0 l []))
     | _ => skip st
   | .listExtend c xs =>
-    match st.h c with
+    match st.h.get c with
     | .list l => runCont E st (st.h.upd c (.list (l ++ xs))) c (if xs.isEmpty then none else some (.list l.length [] xs))
     | _ => skip st
   | .dictSet c k x =>
     -- trait_dict_object.py:159-182 + dict_event_factory: an overwritten key is reported
     -- as removed (old value) and added (new value), its position is kept
-    match st.h c with
+    match st.h.get c with
     | .dict d =>
       (match d.find? (·.1 == k) with
        | some (_, y) =>
@@ -325,30 +325,30 @@ def mutate (E : Env) (st : St) : Mutation → Out
        | none => runCont E st (st.h.upd c (.dict (d ++ [(k, x)]))) c (some (.dict [] [(k, x)])))
     | _ => skip st
   | .dictDel c k =>
-    match st.h c with
+    match st.h.get c with
     | .dict d =>
       (match d.find? (·.1 == k) with
        | some (_, y) => runCont E st (st.h.upd c (.dict (d.filter (·.1 != k)))) c (some (.dict [(k, y)] []))
        | none => skip st)
     | _ => skip st
   | .dictClear c =>
-    match st.h c with
+    match st.h.get c with
     | .dict d => runCont E st (st.h.upd c (.dict [])) c (if d.isEmpty then none else some (.dict d []))
     | _ => skip st
   | .setAdd c x =>
-    match st.h c with
+    match st.h.get c with
     | .set s =>
       if s.contains x then ⟨st, [], none⟩
       else runCont E st (st.h.upd c (.set (insertSorted x s))) c (some (.set [] [x]))
     | _ => skip st
   | .setDiscard c x =>
-    match st.h c with
+    match st.h.get c with
     | .set s =>
       if s.contains x then runCont E st (st.h.upd c (.set (s.filter (· != x)))) c (some (.set [x] []))
       else ⟨st, [], none⟩
     | _ => skip st
   | .setClear c =>
-    match st.h c with
+    match st.h.get c with
     | .set s => runCont E st (st.h.upd c (.set [])) c (if s.isEmpty then none else some (.set s []))
     | _ => skip st
 
